@@ -22,6 +22,11 @@ CHECKS = {
   category='proof', ref='DESIGN.md section 4 (C17)',
   text="For both flag values and all operands: an item is parsed, synthesized, priced or printed as PUSH0 only under the flag (or if the input item already was PUSH0); the same pricing function serves input and output; the flag is set before any entry point runs; unselected contracts are passed through as the same objects.",
   note=TRUST + "Callee contracts used as stubs: parse_asm, optimize_asm_contract, file output. The greedy renderer's display text is not under contract."),
+ 'C18': dict(
+  technique="contract-style obligations on the real constructor/simplifier/equality/printer code interpreted from its AST, with literal values and the valuation of every atom symbolic (z3 decides each shape for all valuations); argument lists enumerated by shape up to a stated bound",
+  category='other', ref='DESIGN.md section 4 (C18)',
+  text="For every argument-shape tuple within the bound (and/or/distinct up to 3 arguments in quick, 4 in thorough, over 8-10 shapes incl. nested connectors, literals, integer terms) and for ALL literal values and ALL valuations: the constructed formula has the truth value of the unsimplified one, no constructor raises, structural equality implies equal truth value, and translate_formula's text re-read by an independent reader denotes the formula. Bounded in the number/shape of arguments (= the property's own quantifier), unbounded in values.",
+  note=TRUST + "Bounded stand-in (tier B): shapes are enumerated, not quantified; the inductive argument over arbitrary argument lists is not discharged."),
 }
 
 NA = {
